@@ -559,11 +559,17 @@ func normalizeSetField(
 	name string,
 	v reflect.Value,
 ) Error {
+	// every element of a dotted name but the last stands for one more object
+	// the value is nested in: they count like the nesting they spell
+	p := parsePathWithOpts(name, opts)
+	levels := len(p.fields) - 1
+	opts.normalizeDepth += levels
 	val, err := normalizeValue(opts, tagOpts, context{}, v)
+	opts.normalizeDepth -= levels
 	if err != nil {
 		return err
 	}
-	return normalizeSetValue(cfg, opts, parsePathWithOpts(name, opts), name, val)
+	return normalizeSetValue(cfg, opts, p, name, val)
 }
 
 func normalizeSetValue(cfg *Config, opts *options, p cfgPath, name string, val value) Error {
